@@ -11,6 +11,7 @@ from __future__ import annotations
 
 import asyncio
 import itertools
+import math
 from typing import Any
 
 from vf.engine.explore import Policy, Run, run_once
@@ -478,8 +479,9 @@ def items(tier: str, seed: int) -> list[tuple[Any, ...]]:
                 for mr in (0, 1, 3):
                     out.append(("".join(tup), tail, mr, False, False, 2.0))
     # long runs around the limits
-    for timeout in (2.0, 30.0):
-        lim = int(max(timeout, 20.0) / POLL)
+    # (20.3 and 27.75: the silence allowance max(timeout, 20) / 0.5 is not a whole number of polls)
+    for timeout in (2.0, 30.0, 20.3, 27.75):
+        lim = math.ceil(max(timeout, 20.0) / POLL)
         for mr in (0, 1):
             for k in (MAX_N_PENDING - 2, MAX_N_PENDING - 1, MAX_N_PENDING, MAX_N_PENDING + 1):
                 out.append(("P" * k + "R", "", mr, False, False, timeout))
